@@ -71,7 +71,8 @@ def r1_permit_before_handler(ctx):
         else:
             R.anchor_lost("C06.R1", "None arm of acquire()")
     rj = F.one(r"^jsonrpsee_types::error::reject_too_many_subscriptions$")
-    ok6 = any(op_const(a) and op_const(a).get("int") == "-32006" for c in rj.calls for a in c.args)
+    from .common import error_code_ints
+    ok6 = error_code_ints(ctx, rj) == {"-32006"}
     R.check(ok6, "C06.R1", "refused:code-value", "reject_too_many_subscriptions uses -32006", "reject_too_many_subscriptions does not use -32006", "%s:%d" % (rj.file, rj.lo))
     aq = F.one(r"^jsonrpsee_core::server::subscription::BoundedSubscriptions::acquire$")
     R.check(bool(aq.calls_to(r"Semaphore::try_acquire_owned$")), "C06.R1", "acquire:try_acquire_owned", "a slot is an owned semaphore permit (non-blocking acquire)", "BoundedSubscriptions::acquire no longer uses Semaphore::try_acquire_owned", "%s:%d" % (aq.file, aq.lo))
